@@ -215,8 +215,11 @@ class ExecMixin:
             if arm.bottom:
                 continue
             if isinstance(expr, ast.IfExp):
-                sub = ast.Assign(targets=st.targets, value=expr)
-                ast.copy_location(sub, st)
+                sub = getattr(expr, "_osv_assign_twin", None)  # persistent (see _as_load)
+                if sub is None:
+                    sub = ast.Assign(targets=st.targets, value=expr)
+                    ast.copy_location(sub, st)
+                    expr._osv_assign_twin = sub
                 self._assign_ifexp(sub, expr, arm)
                 continue
             v = self.eval(expr, arm)
@@ -857,8 +860,14 @@ def _narrow_none(v: Val, want_none: bool) -> Val:
 
 
 def _as_load(t: ast.expr) -> ast.expr:
-    import copy as _copy
+    """The Load-context twin of an assignment target. Created once per target and kept on it: site ids are keyed by
+    node identity, and the address of a temporary node is recycled by the allocator in a run-dependent way (which made
+    value numbers, and through them some verdicts, differ between runs)."""
+    n = getattr(t, "_osv_load_twin", None)
+    if n is None:
+        import copy as _copy
 
-    n = _copy.copy(t)
-    n.ctx = ast.Load()
+        n = _copy.copy(t)
+        n.ctx = ast.Load()
+        t._osv_load_twin = n
     return n
